@@ -51,6 +51,9 @@ type evRecorder struct {
 
 var recorder evRecorder
 
+// clusterPath: execute every command through server.VerifClusterRoundTrip (VERIF_CLUSTER_PATH=1)
+var clusterPath = os.Getenv("VERIF_CLUSTER_PATH") != ""
+
 func (r *evRecorder) hook(kind string, cm *memdb.ConcurrentMap, key string, pos int) {
 	if !r.pass {
 		return
@@ -98,7 +101,13 @@ func execOne(mgr *server.Manager, argv [][]byte) (res execResult) {
 			}()
 		}
 		r.t0 = time.Now().Unix()
-		var out resp.RedisData = mgr.ExecCommand(context.Background(), argv, nil)
+		var out resp.RedisData
+		if clusterPath {
+			// C14: the command goes through the cluster codec (proposal -> log bytes -> decoded proposal -> apply)
+			out, _, _ = server.VerifClusterRoundTrip(context.Background(), mgr, argv)
+		} else {
+			out = mgr.ExecCommand(context.Background(), argv, nil)
+		}
 		r.t1 = time.Now().Unix()
 		if out == nil || isNilData(out) {
 			r.reply = "NIL"
